@@ -446,6 +446,8 @@ impl Search {
 
             // The child was interrupted, its score is meaningless: don't use or cache it
             if !self.is_running() || self.limits_exceeded(start) {
+                #[cfg(rce_verif)]
+                vh::abort_observed(Site::AlphaBetaAfterChild, self.info.depth);
                 return 0;
             }
 
